@@ -53,7 +53,7 @@ pub mod sym;
 #[path = "../../common/stubs.rs"]
 pub mod stubs;
 
-#[cfg(all(any(kani, replay), feature = "c05"))]
+#[cfg(all(any(kani, replay), any(feature = "c05", feature = "c13")))]
 mod c05;
 #[cfg(all(any(kani, replay), feature = "c13"))]
 mod c13;
